@@ -1124,7 +1124,7 @@ class Database(object):
                         on_delete = 'SET NULL'
                     else:
                         on_delete = None
-                    table.add_foreign_key(attr.reverse.fk_name, child_columns, parent_table, parent_columns, attr.index,
+                    table.add_foreign_key(attr.fk_name or attr.reverse.fk_name, child_columns, parent_table, parent_columns, attr.index,
                                           on_delete, interleave=attr.interleave)
                 elif attr.index and attr.columns:
                     if isinstance(attr.py_type, Array) and provider.dialect != 'PostgreSQL':
